@@ -63,6 +63,7 @@ impl Default for PurlParts {
            _c.contract_only('qual', 'U-qmap.insert_typed'),
            _c.contract_only('qual', 'U-qmap.remove_typed'),
            _c.contract_only('qual', 'U-qmap.try_get_typed'),
+           _c.contract_only('qual', 'U-qmap.try_insert_typed'),
            dict(id='U-set.new', file=F, fn='new', ctx=_B, wrap=_W, properties=['C09'],
                 contract='''        ensures r.package_type == package_type,
             r.parts.namespace@.len() == 0, r.parts.version@.len() == 0, r.parts.subpath@.len() == 0,
@@ -103,6 +104,9 @@ impl Default for PurlParts {
            dict(id='U-set.with_typed_qualifier', file=F, fn='with_typed_qualifier', ctx=_B, wrap=_W, properties=['C09', 'C06'],
                 contract='''        requires self.parts.qualifiers.wf(), v is Some ==> valid_key(Q::KEY@)
         ensures %s, r.parts.qualifiers.wf()''' % frame('qualifiers')),
+           dict(id='U-set.try_with_typed_qualifier', file=F, fn='try_with_typed_qualifier', ctx=_B, wrap=_W, properties=['C09', 'C06', 'C12'],
+                contract='''        requires self.parts.qualifiers.wf(), v is Some ==> valid_key(Q::KEY@)
+        ensures r is Ok ==> %s && r->Ok_0.parts.qualifiers.wf()''' % frame('qualifiers', 'r->Ok_0', sep=' && ')),
            dict(id='U-build.build', file=F, fn='build', ctx=_B, wrap=_W, properties=['C04', 'C09', 'C10', 'C14', 'C08', 'C12', 'C05'],
                 contract='''        requires self.parts.qualifiers.wf()
         ensures
